@@ -7,7 +7,10 @@ use crate::socket::{Socket, UdpSocket};
 use crate::utils::retry_on_timeout;
 use crate::GDErrorKind::{PacketBad, TypeParse};
 use crate::{GDErrorKind, GDResult};
+#[cfg(not(gamedig_verif))]
 use std::collections::HashMap;
+#[cfg(gamedig_verif)]
+use crate::verif_hook::collections::HashMap;
 use std::net::SocketAddr;
 use std::slice::Iter;
 
